@@ -120,8 +120,8 @@ fn check_group(g: &HpoGroup, m: &BTreeSet<u32>, what: &str, out: &mut CaseOut) {
         let n = exp.len();
         bump(&mut out.events, "HpoGroup::iter (count/size_hint/nth/skip/step_by/last)");
         let mut bad: Vec<String> = Vec::new();
-        if g.iter().count() != n {
-            bad.push(format!("iter().count() = {}", g.iter().count()));
+        if g.iter().take(n + 10).count() != n {
+            bad.push(format!("iter().count() = {}", g.iter().take(n + 10).count()));
         }
         let (lo, hi) = g.iter().size_hint();
         if lo > n || hi.is_some_and(|h| h < n) {
@@ -138,7 +138,7 @@ fn check_group(g: &HpoGroup, m: &BTreeSet<u32>, what: &str, out: &mut CaseOut) {
             if g.iter().skip(k).next().map(|t| t.as_u32()) != e {
                 bad.push(format!("skip({k}).next()"));
             }
-            let rest: Vec<u32> = g.iter().skip(k).map(|t| t.as_u32()).collect();
+            let rest: Vec<u32> = g.iter().skip(k).take(n + 10).map(|t| t.as_u32()).collect();
             if rest != exp[k.min(n)..] {
                 bad.push(format!("skip({k}) yields {} ids, expected {}", rest.len(), n.saturating_sub(k)));
             }
@@ -148,12 +148,12 @@ fn check_group(g: &HpoGroup, m: &BTreeSet<u32>, what: &str, out: &mut CaseOut) {
             }
             let (lo, hi) = it.size_hint();
             let left = n.saturating_sub(k);
-            if it.count() != left || lo > left || hi.is_some_and(|h| h < left) {
+            if it.take(n + 10).count() != left || lo > left || hi.is_some_and(|h| h < left) {
                 bad.push(format!("after {k} next() calls: count / size_hint disagree with {left} remaining ids"));
             }
         }
         for step in [1usize, 2, 3, 7] {
-            let got: Vec<u32> = g.iter().step_by(step).map(|t| t.as_u32()).collect();
+            let got: Vec<u32> = g.iter().step_by(step).take(n + 10).map(|t| t.as_u32()).collect();
             let want: Vec<u32> = exp.iter().copied().step_by(step).collect();
             if got != want {
                 bad.push(format!("step_by({step}) yields {got:?}, expected {want:?}"));
